@@ -28,6 +28,7 @@ def structures(seed):
     out = []
     for ground in (False, True):
         P, f, lam = geom.lattice(seed, ground=ground)
+        P = [p * 0.5 for p in P]          # single-segment wires on the edges: keep every segment below lambda/10
         env = 'ideal' if ground else 'free'
         r = 1e-4 * lam
         if not ground:
